@@ -159,6 +159,15 @@ class Oracle:
                         ok = True
                     if ok:
                         out.add(n.targets[0].id)
+        # function-valued parameters of this code base are mathematical
+        # functions (integrands, parametrisations, data)
+        if isinstance(fn, (ast.FunctionDef, ast.AsyncFunctionDef)):
+            params = {x.arg for x in fn.args.args + fn.args.kwonlyargs}
+            for n in ast.walk(fn):
+                if isinstance(n, ast.Call) and isinstance(
+                        n.func, ast.Name) and n.func.id in params and \
+                        n.func.id not in self.defs:
+                    out.add(n.func.id)
         # assigned more than once with a non-callable value: drop
         for n in ast.walk(fn):
             if isinstance(n, ast.Assign):
@@ -197,7 +206,7 @@ class Oracle:
                 f.value.attr in PURE_CALLABLE_ATTRS:
             return True
         if isinstance(f, ast.Name):
-            if f.id in callables:
+            if f.id in callables or f.id.startswith('$a'):
                 return True
             if f.id in self.defs:
                 return f.id not in self.impure
@@ -312,6 +321,119 @@ def _non_arith(n):
         for x in ast.walk(n))
 
 
+def _format_to_joined(call):
+    """'..{}..{:.3f}'.format(a, b)  ->  the equivalent f-string node (only
+    positional, automatically or explicitly numbered fields)"""
+    import string
+    f = call.func
+    if not (isinstance(f, ast.Attribute) and f.attr == 'format'
+            and isinstance(f.value, ast.Constant)
+            and isinstance(f.value.value, str)) or call.keywords or any(
+                isinstance(a, ast.Starred) for a in call.args):
+        return None
+    try:
+        fields = list(string.Formatter().parse(f.value.value))
+    except ValueError:
+        return None
+    vals = []
+    auto = 0
+    for lit, name, spec, conv in fields:
+        if lit:
+            vals.append(ast.Constant(value=lit))
+        if name is None:
+            continue
+        if name == '':
+            idx = auto
+            auto += 1
+        elif name.isdigit():
+            idx = int(name)
+        else:
+            return None
+        if idx >= len(call.args) or (spec and '{' in spec):
+            return None
+        vals.append(ast.FormattedValue(
+            value=call.args[idx], conversion=ord(conv) if conv else -1,
+            format_spec=ast.JoinedStr(values=[ast.Constant(value=spec)])
+            if spec else None))
+    return ast.JoinedStr(values=vals)
+
+
+def _str_parts(e):
+    """parts of a string built by + from str(x), literals and f-strings"""
+    if isinstance(e, ast.BinOp) and isinstance(e.op, ast.Add):
+        l, r = _str_parts(e.left), _str_parts(e.right)
+        if l is None or r is None:
+            return None
+        return l + r
+    if isinstance(e, ast.Call) and isinstance(e.func, ast.Name) and \
+            e.func.id == 'str' and len(e.args) == 1 and not e.keywords:
+        return [ast.FormattedValue(value=e.args[0], conversion=-1,
+                                   format_spec=None)]
+    if isinstance(e, ast.Constant) and isinstance(e.value, str):
+        return [e]
+    if isinstance(e, ast.JoinedStr):
+        return list(e.values)
+    return None
+
+
+def _merge_str(values):
+    out = []
+    for v in values:
+        if isinstance(v, ast.Constant) and out and isinstance(
+                out[-1], ast.Constant):
+            out[-1] = ast.Constant(value=out[-1].value + v.value)
+        elif isinstance(v, ast.Constant) and v.value == '':
+            continue
+        else:
+            out.append(v)
+    return out
+
+
+_CURRENT = [None]   # the oracle of the comparison in progress
+
+
+def _keywords_to_positional(call, oracle):
+    """f(a, y=c, x=b) -> f(a, b, c) when every function of that name in
+    the repository has the same positional parameter list"""
+    f = call.func
+    name = f.id if isinstance(f, ast.Name) else (
+        f.attr if isinstance(f, ast.Attribute) else None)
+    if name is None or any(k.arg is None for k in call.keywords) or any(
+            isinstance(a, ast.Starred) for a in call.args):
+        return call
+    if isinstance(f, ast.Attribute) and name.startswith('_') and \
+            '__' in name[1:] and name not in oracle.defs:
+        name = '__' + name[1:].split('__', 1)[1]
+    nodes = [nd for nd in oracle.defs.get(name, []) if nd is not None]
+    if not nodes or name == '__init__':
+        return call
+    sigs = set()
+    for nd in nodes:
+        a = nd.args
+        if a.vararg or a.kwarg or a.posonlyargs:
+            return call
+        params = [x.arg for x in a.args]
+        is_method = isinstance(f, ast.Attribute) or name[:1].isupper()
+        if params and params[0] in ('self', 'cls') and is_method:
+            params = params[1:]
+        sigs.add(tuple(params))
+    if len(sigs) != 1:
+        return call
+    params = list(sigs.pop())
+    kw = {k.arg: k.value for k in call.keywords}
+    args = list(call.args)
+    rest = params[len(args):]
+    new = []
+    for p_ in rest:
+        if p_ in kw:
+            new.append(kw.pop(p_))
+        else:
+            break
+    if kw:
+        return call   # a gap (default in between) or an unknown keyword
+    return ast.Call(func=f, args=args + new, keywords=[])
+
+
 class _ExprCanon(ast.NodeTransformer):
     """a - b -> a + (-b); 1*x -> x; -1*x -> -x; --x -> x; operands of a
     numeric binary + / * sorted by their text; comprehension / lambda
@@ -319,8 +441,31 @@ class _ExprCanon(ast.NodeTransformer):
     def __init__(self):
         self.k = 0
 
+    def visit_Call(self, n):
+        self.generic_visit(n)
+        if n.keywords and _CURRENT[0] is not None:
+            n = _keywords_to_positional(n, _CURRENT[0])
+        j = _format_to_joined(n)
+        if j is not None:
+            j.values = _merge_str(j.values)
+            return j
+        if isinstance(n.func, ast.Name) and n.func.id == 'str' and len(
+                n.args) == 1 and not n.keywords and False:
+            return n
+        return n
+
+    def visit_JoinedStr(self, n):
+        self.generic_visit(n)
+        n.values = _merge_str(n.values)
+        return n
+
     def visit_BinOp(self, n):
         self.generic_visit(n)
+        if isinstance(n.op, ast.Add):
+            parts = _str_parts(n)
+            if parts is not None and any(
+                    isinstance(p_, ast.FormattedValue) for p_ in parts):
+                return ast.JoinedStr(values=_merge_str(parts))
         if _non_arith(n):
             return n
         if isinstance(n.op, ast.Sub):
@@ -337,7 +482,34 @@ class _ExprCanon(ast.NodeTransformer):
                                 a.operand.value) is int and \
                         a.operand.value == 1:
                     return self._neg(b)
-        if isinstance(n.op, (ast.Add, ast.Mult)):
+        def neg(e):
+            return isinstance(e, ast.UnaryOp) and isinstance(e.op, ast.USub)
+
+        def strip(e):
+            return e.operand if neg(e) else e
+        if isinstance(n.op, (ast.Mult, ast.Div)):
+            # (-a)*b, a*(-b), a/(-b): the sign moves to the front (exact)
+            k = neg(n.left) + neg(n.right)
+            if k:
+                n = ast.BinOp(left=strip(n.left), op=n.op,
+                              right=strip(n.right))
+                if isinstance(n.op, ast.Mult):
+                    l, r = ast.dump(n.left), ast.dump(n.right)
+                    if r < l:
+                        n.left, n.right = n.right, n.left
+                return self._neg(n) if k == 1 else n
+        if isinstance(n.op, ast.Add):
+            # a + b: operands ordered by their unsigned text, the first one
+            # positive: (-a) + b == -(a + (-b)) exactly
+            l, r = ast.dump(strip(n.left)), ast.dump(strip(n.right))
+            if r < l:
+                n.left, n.right = n.right, n.left
+            if neg(n.left):
+                inner = ast.BinOp(left=strip(n.left), op=ast.Add(),
+                                  right=self._neg(n.right))
+                return ast.UnaryOp(op=ast.USub(), operand=inner)
+            return n
+        if isinstance(n.op, ast.Mult):
             l, r = ast.dump(n.left), ast.dump(n.right)
             if r < l:
                 n.left, n.right = n.right, n.left
@@ -404,6 +576,37 @@ class _ExprCanon(ast.NodeTransformer):
                    ([a.kwarg] if a.kwarg else []), [n])
         self.generic_visit(n)
         return n
+
+
+def _unroll_literal_comps(node):
+    """[E(x) for x in (a, b)]  ->  [E(a), E(b)]"""
+    class U(ast.NodeTransformer):
+        def visit_ListComp(self, n):
+            self.generic_visit(n)
+            if len(n.generators) != 1:
+                return n
+            g = n.generators[0]
+            if g.ifs or g.is_async or not isinstance(
+                    g.iter, (ast.Tuple, ast.List)) or len(
+                        g.iter.elts) > 8 or any(
+                            isinstance(x, ast.Starred)
+                            for x in g.iter.elts):
+                return n
+            elts = []
+            for x in g.iter.elts:
+                if isinstance(g.target, ast.Name):
+                    env = {g.target.id: x}
+                elif isinstance(g.target, (ast.Tuple, ast.List)) and \
+                        isinstance(x, (ast.Tuple, ast.List)) and len(
+                            x.elts) == len(g.target.elts) and all(
+                                isinstance(t, ast.Name)
+                                for t in g.target.elts):
+                    env = {t.id: v for t, v in zip(g.target.elts, x.elts)}
+                else:
+                    return n
+                elts.append(_SubstEnv(env).visit(copy.deepcopy(n.elt)))
+            return ast.List(elts=elts, ctx=ast.Load())
+    return U().visit(node)
 
 
 def _fold_subscripts(e):
@@ -603,6 +806,11 @@ class ModRef:
                     root = n
                     while isinstance(root, (ast.Attribute, ast.Subscript)):
                         root = root.value
+                    if fn.name == '__init__' and isinstance(
+                            n.value, ast.Name) and n.value.id == 'self':
+                        # a field of the object under construction: no
+                        # existing object changes
+                        continue
                     if not (isinstance(root, ast.Name) and root.id in fresh):
                         out.add(n.attr)
                 else:
@@ -832,6 +1040,178 @@ class Builder:
                 return False
         return True
 
+    def def_as_lambda(self, fn):
+        """def f(a): <side-effect-free temporaries>; return e  ->  lambda"""
+        a = fn.args
+        if a.vararg or a.kwarg or a.kwonlyargs or a.defaults or \
+                fn.decorator_list:
+            return None
+        loc = {}
+        ret = None
+        for st in fn.body:
+            if ret is not None:
+                return None
+            if isinstance(st, ast.Expr) and isinstance(st.value,
+                                                       ast.Constant):
+                continue
+            if isinstance(st, ast.Assign) and len(st.targets) == 1 and \
+                    self.pure(st.value):
+                t = st.targets[0]
+                v = esub(st.value, loc)
+                if isinstance(t, ast.Name):
+                    loc[t.id] = v
+                    continue
+                if isinstance(t, (ast.Tuple, ast.List)) and all(
+                        isinstance(x, ast.Name) for x in t.elts):
+                    if isinstance(v, (ast.Tuple, ast.List)) and len(
+                            v.elts) == len(t.elts):
+                        for x, y in zip(t.elts, v.elts):
+                            loc[x.id] = y
+                    else:
+                        for i, x in enumerate(t.elts):
+                            loc[x.id] = ast.Subscript(
+                                value=copy.deepcopy(v),
+                                slice=ast.Constant(value=i), ctx=ast.Load())
+                    continue
+                return None
+            if isinstance(st, ast.Return) and st.value is not None and \
+                    self.pure(st.value):
+                ret = esub(st.value, loc)
+                continue
+            return None
+        if ret is None:
+            return None
+        return ast.Lambda(args=copy.deepcopy(a), body=ret)
+
+    # -- impure calls are evaluated one per statement -----------------------
+    def anf_stmt(self, st):
+        """A statement whose expression contains an impure call below the
+        top is split: the calls (and whatever is evaluated before them) are
+        bound to temporaries in evaluation order.  Returns the new statement
+        list or None."""
+        def impure_inside(e):
+            return any(isinstance(n, ast.Call) and not _is_at(n)
+                       and not self.oracle.pure_call(n, self.fresh,
+                                                     self.callables)
+                       for n in ast.walk(e))
+        out = []
+        counter = [0]
+
+        def temp(e):
+            self.nsym += 1
+            name = '_anf%d' % self.nsym
+            a = ast.Assign(targets=[ast.Name(id=name, ctx=ast.Store())],
+                           value=e)
+            a._anf = True
+            out.append(a)
+            return ast.Name(id=name, ctx=ast.Load())
+
+        def flat(e, top=False):
+            """rewrite e so that no impure call is left below its top"""
+            if not impure_inside(e):
+                return e
+            if isinstance(e, (ast.BoolOp, ast.IfExp, ast.Lambda,
+                              ast.ListComp, ast.SetComp, ast.DictComp,
+                              ast.GeneratorExp)):
+                return e   # evaluated conditionally / later: stays put
+            kids = []   # (setter, child) in evaluation order
+            if isinstance(e, ast.Call):
+                if isinstance(e.func, ast.Attribute):
+                    kids.append((lambda v: setattr(e.func, 'value', v),
+                                 e.func.value))
+                elif not isinstance(e.func, ast.Name):
+                    kids.append((lambda v: setattr(e, 'func', v), e.func))
+                for i, a in enumerate(e.args):
+                    if isinstance(a, ast.Starred):
+                        kids.append((lambda v, a=a: setattr(a, 'value', v),
+                                     a.value))
+                    else:
+                        kids.append((lambda v, i=i: e.args.__setitem__(i, v),
+                                     a))
+                for kw in e.keywords:
+                    kids.append((lambda v, kw=kw: setattr(kw, 'value', v),
+                                 kw.value))
+            elif isinstance(e, ast.BinOp):
+                kids = [(lambda v: setattr(e, 'left', v), e.left),
+                        (lambda v: setattr(e, 'right', v), e.right)]
+            elif isinstance(e, ast.UnaryOp):
+                kids = [(lambda v: setattr(e, 'operand', v), e.operand)]
+            elif isinstance(e, ast.Compare):
+                kids = [(lambda v: setattr(e, 'left', v), e.left)] + [
+                    (lambda v, i=i: e.comparators.__setitem__(i, v), c)
+                    for i, c in enumerate(e.comparators)]
+            elif isinstance(e, ast.Attribute):
+                kids = [(lambda v: setattr(e, 'value', v), e.value)]
+            elif isinstance(e, ast.Subscript):
+                kids = [(lambda v: setattr(e, 'value', v), e.value),
+                        (lambda v: setattr(e, 'slice', v), e.slice)]
+            elif isinstance(e, (ast.Tuple, ast.List)):
+                kids = [(lambda v, i=i: e.elts.__setitem__(i, v), c)
+                        for i, c in enumerate(e.elts)]
+            elif isinstance(e, ast.Starred):
+                kids = [(lambda v: setattr(e, 'value', v), e.value)]
+            else:
+                return e
+            last = max(i for i, (_, c) in enumerate(kids)
+                       if impure_inside(c)) if any(
+                           impure_inside(c) for _, c in kids) else -1
+            for i, (setter, c) in enumerate(kids):
+                if i > last:
+                    break
+                if impure_inside(c):
+                    c2 = flat(c)
+                    if isinstance(c2, ast.Call) and not _is_at(c2) and \
+                            not self.oracle.pure_call(c2, self.fresh,
+                                                      self.callables):
+                        c2 = temp(c2)
+                    elif i < last and not isinstance(c2, (ast.Constant,
+                                                         ast.Name)):
+                        c2 = temp(c2)
+                    setter(c2)
+                elif i < last and not isinstance(c, (ast.Constant,
+                                                     ast.Name)):
+                    setter(temp(c))   # evaluated before a later effect
+            return e
+
+        def nested(e):
+            """is there an impure call below the top of e?"""
+            if isinstance(e, ast.Call) and not _is_at(e) and \
+                    not self.oracle.pure_call(e, self.fresh, self.callables):
+                return any(impure_inside(c)
+                           for c in ast.iter_child_nodes(e)
+                           if not isinstance(c, (ast.Load, ast.Store)))
+            return impure_inside(e)
+
+        st2 = None
+        if isinstance(st, (ast.Expr, ast.Return)) and st.value is not None \
+                and nested(st.value) and not isinstance(st.value, ast.IfExp):
+            st2 = copy.deepcopy(st)
+            st2.value = flat(st2.value)
+        elif isinstance(st, (ast.Assign, ast.AugAssign)) and nested(
+                st.value) and not isinstance(st.value, ast.IfExp):
+            st2 = copy.deepcopy(st)
+            st2.value = flat(st2.value)
+        elif isinstance(st, ast.For) and impure_inside(st.iter):
+            st2 = copy.copy(st)
+            st2._orig = getattr(st, '_orig', st)
+            it = flat(copy.deepcopy(st.iter))
+            if isinstance(it, ast.Call) and not self.oracle.pure_call(
+                    it, self.fresh, self.callables):
+                it = temp(it)
+            st2.iter = it
+        elif isinstance(st, ast.If) and impure_inside(st.test) and \
+                isinstance(st.test, (ast.Compare, ast.Call, ast.UnaryOp)):
+            st2 = copy.copy(st)
+            t = flat(copy.deepcopy(st.test))
+            if isinstance(t, ast.Call) and not self.oracle.pure_call(
+                    t, self.fresh, self.callables):
+                t = temp(t)
+            st2.test = t
+        if st2 is None or not out:
+            return None
+        st2._anf = True
+        return out + [st2]
+
     # -- versioned expressions ---------------------------------------------
     def settle(self, e, ver):
         """unwrap every snapshot that is still current"""
@@ -857,6 +1237,7 @@ class Builder:
     def value(self, e, env, ver):
         """the value of a side-effect-free expression as of now"""
         x = self.settle(esub(e, env), ver)
+        x = _ExprCanon().visit(x)
         if isinstance(x, (ast.Constant, ast.Lambda)) or (
                 isinstance(x, ast.Name) and x.id.startswith('$')) or \
                 _is_at(x):
@@ -954,6 +1335,7 @@ class Builder:
         else:
             sig = ('sig', )
         body = copy.deepcopy(fn.body)
+        self.body_for_following = body
         tree = self.block(body, env, Ver(), lambda env, ver: ('ret', 'None'))
         return (sig, tree)
 
@@ -963,6 +1345,14 @@ class Builder:
             return k(env, ver)
         self.tick()
         st, rest = stmts[0], stmts[1:]
+        if not getattr(st, '_anf', False):
+            if any(isinstance(n, ast.ListComp) for n in ast.walk(st)) and \
+                    not isinstance(st, (ast.FunctionDef, ast.For, ast.While,
+                                        ast.If, ast.Try, ast.With)):
+                st = _unroll_literal_comps(copy.deepcopy(st))
+            pre = self.anf_stmt(st)
+            if pre is not None:
+                return self.block(pre + rest, env, ver, k)
 
         def k2(env, ver):
             return self.block(rest, env, ver, k)
@@ -1006,8 +1396,7 @@ class Builder:
         if isinstance(st, ast.Continue):
             return ('continue', )
         if isinstance(st, (ast.FunctionDef, ast.AsyncFunctionDef)):
-            from .absint import simple_function_as_lambda
-            lam = simple_function_as_lambda(st)
+            lam = self.def_as_lambda(st)
             env = dict(env)
             if lam is not None:
                 shadow = {a.arg for a in st.args.args}
@@ -1281,6 +1670,109 @@ class Builder:
             out.extend(copy.deepcopy(st.body))
         return out
 
+    def _iteration_local(self, name, loop):
+        """assigned before any use in every iteration, and never read
+        outside the loop: a temporary of one iteration"""
+        def mentions(node):
+            return any(isinstance(m, ast.Name) and m.id == name
+                       for m in ast.walk(node))
+
+        def defined_first(stmts):
+            for i, s_ in enumerate(stmts):
+                if not mentions(s_):
+                    continue
+                if isinstance(s_, ast.Assign) and name in {
+                        m.id for t in s_.targets for m in ast.walk(t)
+                        if isinstance(m, ast.Name)}:
+                    return name not in _loads(s_.value)
+                if isinstance(s_, ast.For) and name in _stores(
+                        s_.target) and name not in _loads(s_.iter):
+                    return True
+                if isinstance(s_, ast.For) and not mentions(
+                        s_.target) and not mentions(s_.iter) and not any(
+                            mentions(x) for x in stmts[i + 1:]):
+                    return defined_first(s_.body)
+                if isinstance(s_, (ast.If, ast.With)) and not any(
+                        mentions(x) for x in stmts[i + 1:]) and not (
+                            isinstance(s_, ast.If) and mentions(s_.test)):
+                    parts = [p_ for p_ in (s_.body, getattr(
+                        s_, 'orelse', [])) if any(mentions(x) for x in p_)]
+                    return all(defined_first(p_) for p_ in parts)
+                return False
+            return False
+        if not defined_first(loop.body):
+            return False
+        def count(node):
+            if isinstance(node, (ast.ListComp, ast.SetComp, ast.DictComp,
+                                 ast.GeneratorExp)) and any(
+                                     name in _stores(g.target)
+                                     for g in node.generators):
+                # the name is a variable of the comprehension's own scope
+                return count(node.generators[0].iter)
+            if isinstance(node, ast.Lambda) and name in {
+                    x.arg for x in node.args.args}:
+                return 0
+            k_ = 1 if isinstance(node, ast.Name) and node.id == name else 0
+            return k_ + sum(count(c) for c in ast.iter_child_nodes(node))
+        inside = sum(count(s_) for s_ in loop.body)
+        whole = sum(count(s_) for s_ in self.body_for_following)
+        if inside == whole:
+            return True
+        # used elsewhere: harmless if whatever may run after the loop
+        # defines the name again before reading it
+        fol = self._following(loop)
+        if fol is None:
+            return False
+        for s_ in fol:
+            if isinstance(s_, (ast.Return, ast.Raise)):
+                return not count(s_)
+            if not count(s_):
+                continue
+            if isinstance(s_, ast.Assign) and name in {
+                    m.id for t in s_.targets for m in ast.walk(t)
+                    if isinstance(m, ast.Name)} and \
+                    name not in _loads(s_.value):
+                return True
+            if isinstance(s_, ast.For) and name in _stores(s_.target) \
+                    and name not in _loads(s_.iter):
+                return True
+            if isinstance(s_, ast.Return) and not count(s_):
+                return True
+            return False
+        return True
+
+    def _following(self, loop):
+        """statements that may execute after the loop, in order (None when
+        the loop sits in another loop: the back edge re-enters anything)"""
+        path = []
+
+        def find(stmts, trail):
+            for i, s_ in enumerate(stmts):
+                if s_ is loop or getattr(s_, '_orig', None) is loop:
+                    path.extend(trail + [(stmts, i)])
+                    return True
+                for f in ('body', 'orelse', 'finalbody'):
+                    sub = getattr(s_, f, None)
+                    if isinstance(sub, list) and sub and isinstance(
+                            sub[0], ast.stmt):
+                        if isinstance(s_, (ast.FunctionDef, ast.Lambda)):
+                            continue
+                        if find(sub, trail + [(stmts, i)]):
+                            return True
+                for h in getattr(s_, 'handlers', []):
+                    if find(h.body, trail + [(stmts, i)]):
+                        return True
+            return False
+        if not find(self.body_for_following, []):
+            return None
+        out = []
+        for stmts, i in reversed(path):
+            out.extend(stmts[i + 1:])
+        for stmts, i in path[:-1]:
+            if isinstance(stmts[i], (ast.For, ast.While)):
+                return None
+        return out
+
     def loop(self, st, env, ver, k2):
         un = self.unrolled(st, env, ver)
         if un is not None:
@@ -1304,7 +1796,10 @@ class Builder:
             for m in ast.walk(st.target):
                 if isinstance(m, ast.Name) and m.id not in tnames:
                     tnames.append(m.id)
-        carried = [n for n in first if n not in tnames]
+        head_reads = _loads(st.test) if isinstance(st, ast.While) else set()
+        carried = [n for n in first if n not in tnames
+                   and (n in head_reads
+                        or not self._iteration_local(n, st))]
         # whatever the body may change has changed an unknown number of
         # times when an iteration starts
         mods = self.stmts_mods(st.body, env)
@@ -1320,7 +1815,8 @@ class Builder:
         else:
             body = list(st.body)
         btree = self.block(body, inner, vin, lambda e, v: ('continue', ))
-        after = dict(env)
+        after = {k_: v_ for k_, v_ in env.items()
+                 if k_ not in first or k_ in tnames or k_ in carried}
         for nm in tnames + carried:
             after[nm] = inner[nm]
         return ('loop', head + ' <' + ' '.join(
@@ -1566,6 +2062,7 @@ class _Eq:
 
 
 def canon(fn, oracle):
+    _CURRENT[0] = oracle
     return Builder(fn, oracle, oracle.modref()).build()
 
 
@@ -1603,8 +2100,18 @@ def explain(ref_fn, cur_fn, oracle):
                 while b[0] == 'ite' and _renumber(b[1], mb) in assign:
                     b = b[2] if assign[_renumber(b[1], mb)] else b[3]
 
+                ta_ = _renumber(a[1], ma) if len(a) > 1 and isinstance(
+                    a[1], str) else ''
+                tb_ = _renumber(b[1], mb) if len(b) > 1 and isinstance(
+                    b[1], str) else ''
+                pos = 0
+                while pos < min(len(ta_), len(tb_)) and \
+                        ta_[pos] == tb_[pos]:
+                    pos += 1
+                pos = max(0, pos - 60)
+
                 def head(t, m):
-                    return (t[0], _renumber(t[1], m)[:400]
+                    return (t[0], _renumber(t[1], m)[pos:pos + 400]
                             if len(t) > 1 and isinstance(t[1], str) else '')
                 log.append('under %s:\n   ref %s\n   cur %s' % (
                     {k: v for k, v in list(assign.items())[-6:]},
